@@ -79,6 +79,16 @@ def plan(tier, seed):
         P.add("esp", shape=shape, nc=nc, cw=cw, kw=kw, thresh=pick(rng, [1e-3, 0.02]),
               crop=pick(rng, [0.5, 0.8, 0.95]), kind="bandlimited", dt="complex128",
               eseed=int(rng.integers(1 << 30)))
+    # very few power iterations (max_iter = 1, 2, 3): unit-or-zero norm, phase reference and
+    # the eigenvalue range do not wait for convergence (recovery is not decided there)
+    for i in range(10 if quick else 120):
+        shape = [int(rng.integers(8, 20)) for _ in range(2)]
+        cw = int(rng.integers(4, min(shape) + 1))
+        P.add("esp", shape=shape, nc=int(rng.integers(2, 9)), cw=cw,
+              kw=int(rng.integers(2, min(5, cw) + 1)), thresh=pick(rng, [1e-3, 0.02, 0.05]),
+              crop=pick(rng, [0, 0.8, 0.95]), kind=pick(rng, ["random", "synth"]),
+              dt=pick(rng, ["complex128", "complex64"]), eseed=int(rng.integers(1 << 30)),
+              mi=int(pick(rng, [1, 1, 2, 3])))
     # realistic matrix sizes: long, strongly anisotropic 2-D matrices in both orientations
     # (a 96 x 640 readout-oversampled slice), a 3-D volume - tens of thousands of voxels
     real_ = [[96, 640], [640, 96], [12, 600], [600, 12], [200, 300], [16, 64, 72], [72, 20, 16]]
@@ -101,7 +111,8 @@ def run_case(case):
     shape, nc = case["shape"], case["nc"]
     nd = len(shape)
     dt = np.dtype(case["dt"])
-    sig = "|".join(map(str, ["esp", nd, case["kind"], "nc%d" % min(nc, 4),
+    sig = "|".join(map(str, ["esp" if not case.get("mi") else "esp-mi%d" % case["mi"], nd,
+                             case["kind"], "nc%d" % min(nc, 4),
                              "cw%d" % min(case["cw"] // 4, 3), "kw%d" % case["kw"],
                              case["thresh"], case["crop"], dt.name, "lay%d" % (case["eseed"] % 4)]))
     wit = dict(case)
@@ -127,13 +138,13 @@ def run_case(case):
         ksp = np.ascontiguousarray(np.swapaxes(ksp, 1, 2)).swapaxes(1, 2)
     ksp0 = ksp.copy()
     try:
-        if case["eseed"] % 4 == 1:
+        if case["eseed"] % 4 == 1 and not case.get("mi"):
             # documented signature (ksp, calib_width, thresh, kernel_width, crop, max_iter,
             # device, output_eigenvalue, show_pbar) called positionally
             import sigpy as sp_
             app = mr.app.EspiritCalib(ksp, case["cw"], case["thresh"], case["kw"], case["crop"],
                                       100, sp_.cpu_device, True, False)
-        elif case["eseed"] % 4 == 3:
+        elif case["eseed"] % 4 == 3 and not case.get("mi"):
             # the progress bar left at its default (on; tqdm itself is silenced through
             # TQDM_DISABLE): what it displays must not touch what is returned
             app = mr.app.EspiritCalib(ksp, calib_width=case["cw"], thresh=case["thresh"],
@@ -143,7 +154,8 @@ def run_case(case):
         else:
             app = mr.app.EspiritCalib(ksp, calib_width=case["cw"], thresh=case["thresh"],
                                       kernel_width=case["kw"], crop=case["crop"],
-                                      output_eigenvalue=True, show_pbar=False)
+                                      output_eigenvalue=True, show_pbar=False,
+                                      max_iter=case.get("mi", 100))
         if case["eseed"] % 3 == 0:
             # history: a second calibration of the same shape and dtype is constructed before
             # the first one is run (e.g. slice-by-slice processing builds all apps first)
@@ -169,7 +181,7 @@ def run_case(case):
                                     int(np.sum(np.isnan(mps_b))),
                                     float(np.nanmax(np.abs(mps_b - mk_)))), wit,
                                 mech="rerun-output")
-        if case["eseed"] % 5 == 1 and case["crop"]:
+        if case["eseed"] % 5 == 1 and case["crop"] and not case.get("mi"):
             # history: the same calibration first fails in its output step (crop=None cannot be
             # compared), the caller repairs the setting on the object and runs it again: the
             # maps must be those of a calibration that never failed
@@ -251,7 +263,7 @@ def run_case(case):
         return violated(sig, "k-space argument modified", wit, mech="mutated")
     # boundary of the crop rule: re-run with crop exactly equal to one voxel's eigenvalue
     # (the computation is deterministic): that voxel must now be zero ("does not exceed")
-    if (~zero).any() and case["eseed"] % 3 == 0:
+    if (~zero).any() and case["eseed"] % 3 == 0 and not case.get("mi"):
         cand = np.argwhere(~zero)
         k = tuple(cand[case["eseed"] % len(cand)])
         e_star = float(er[k])
